@@ -194,9 +194,72 @@ fn vf_first_char(s: &str) -> (r: Option<char>)
 fn vf_trim_end(s: &str) -> (r: &str) { s.trim_end() }
 #[verifier::external_body]
 fn vf_to_string(s: &str) -> (r: String) ensures r@ == s@ { s.to_string() }
-// normalize_arg: its own contract is below; here only that it is total
+// ---- normalize_arg: a left-to-right pass with one bit of state ("the previous character was an unpaired backslash") ---------------
+pub struct NState { pub out: Seq<char>, pub escaped: bool }
+pub open spec fn nstep(st: NState, c: char, sep: char) -> NState {
+    if c == '\\' {
+        // a pair of backslashes is a literal backslash and stays a pair; a single one waits for what follows
+        if st.escaped { NState { out: st.out + seq!['\\', '\\'], escaped: false } } else { NState { out: st.out, escaped: true } }
+    } else {
+        // "replaces escaped instances of `separator` with unescaped characters": the backslash is dropped only in front of the separator
+        let o = if st.escaped && c != sep { st.out.push('\\') } else { st.out };
+        NState { out: o.push(c), escaped: false }
+    }
+}
+pub open spec fn nfold(a: Seq<char>, n: int, sep: char) -> NState
+    decreases n
+{
+    if n <= 0 { NState { out: Seq::empty(), escaped: false } } else { nstep(nfold(a, n - 1, sep), a[n - 1], sep) }
+}
+// R5: arg.chars(), materialised;  R6: String += &str / String::push
 #[verifier::external_body]
-fn normalize_arg(arg: &str, separator: char) -> (r: String) { unimplemented!() }
+fn vf_chars(s: &str) -> (r: Vec<char>) ensures r@ == s@ { s.chars().collect() }
+#[verifier::external_body]
+fn vf_push_str(s: &mut String, t: &str) ensures final(s)@ == old(s)@ + t@ { s.push_str(t) }
+#[verifier::external_body]
+fn vf_push(s: &mut String, c: char) ensures final(s)@ == old(s)@.push(c) { s.push(c) }
+#[verifier::external_body]
+fn vf_with_capacity(n: usize) -> (r: String) ensures r@ == Seq::<char>::empty() { String::with_capacity(n) }
+
+//@EXTRACT src/resources/resource_storage.rs :: fn normalize_arg
+//@ RET r
+//@ SAFETY C18.args.normalize.safety
+//@ R4
+//@ SPEC
+    requires separator != '\\',
+    ensures r@ == nfold(arg@, arg@.len() as int, separator).out, // OBL C18.args.normalize.fold
+//@ ENDSPEC
+//@ SUBST R6
+    String::with_capacity(arg.len())
+//@ WITH
+    vf_with_capacity(arg.len())
+//@ ENDSUBST
+//@ SUBST R5
+    for i in arg.chars() {
+//@ WITH
+    for i in it: vf_chars(arg)
+        invariant
+            it.seq() == arg@, separator != '\\',
+            output@ == nfold(arg@, it.index() as int, separator).out, escaped == nfold(arg@, it.index() as int, separator).escaped,
+    {
+        proof { reveal_strlit("\\\\"); }
+//@ ENDSUBST
+//@ SUBST R6
+    output += "\\\\";
+//@ WITH
+    vf_push_str(&mut output, "\\\\");
+//@ ENDSUBST
+//@ SUBST R6
+    output.push('\\');
+//@ WITH
+    vf_push(&mut output, '\\');
+//@ ENDSUBST
+//@ SUBST R6
+    output.push(i);
+//@ WITH
+    vf_push(&mut output, i);
+//@ ENDSUBST
+//@END
 
 //@EXTRACT src/resources/resource_storage.rs :: fn parse_scriptlet_args
 //@ RET r
